@@ -302,7 +302,7 @@ func (ex *Exec) applyContract(st *State, in ssa.Instruction, ord int, name strin
 			if _, bound := eenv.vars[g.Name]; !bound {
 				w := Sc{ex.ctx.Fresh("wit_"+sanitize(short)+"_"+g.Name, ghostSortOf(g.Init))}
 				eenv.vars[g.Name] = TV{w, nil}
-				st.ghost[short+"_"+g.Name] = w
+				st.setGhost(short+"_"+g.Name, w)
 			}
 		}
 	}
@@ -310,7 +310,7 @@ func (ex *Exec) applyContract(st *State, in ssa.Instruction, ord int, name strin
 		if _, bound := eenv.vars[wt.Name]; !bound {
 			w := Sc{ex.ctx.Fresh("wit_"+sanitize(short)+"_"+wt.Name, kindSort(wt.Kind))}
 			eenv.vars[wt.Name] = TV{w, nil}
-			st.ghost[short+"_"+wt.Name] = w
+			st.setGhost(short+"_"+wt.Name, w)
 		}
 	}
 	for _, e := range spec.Ensures {
@@ -491,7 +491,7 @@ func (ex *Exec) havocAssign(st *State, al assignLoc) {
 	l := al.loc
 	if l.Kind == "ghost" {
 		if sc, ok := st.ghost[l.Base].(Sc); ok {
-			st.ghost[l.Base] = Sc{ex.ctx.Fresh("ghost_"+l.Base, sc.T.Sort)}
+			st.setGhost(l.Base, Sc{ex.ctx.Fresh("ghost_"+l.Base, sc.T.Sort)})
 		}
 		return
 	}
